@@ -12,6 +12,7 @@ mod c09;
 mod c10;
 mod c11;
 mod c13;
+mod c14;
 mod c15;
 mod c17;
 mod c18;
@@ -26,6 +27,7 @@ fn main() {
         "c10" => c10::run(&args, &mut rep),
         "c11" => c11::run(&args, &mut rep),
         "c13" => c13::run(&args, &mut rep),
+        "c14" => c14::run(&args, &mut rep),
         "c15" => c15::run(&args, &mut rep),
         "c17" => c17::run(&args, &mut rep),
         "c18" => c18::run(&args, &mut rep),
